@@ -1,4 +1,4 @@
-import TLVerif.Codec.JsonLemmas
+import TLVerif.Codec.JsonAlt
 /-!
 # C06 — the JSON reader accepts the documented alternative forms and rejects invalid ones
 
@@ -167,6 +167,23 @@ theorem dict_as_pairs_rejected (fuel ty : Nat) (params : List Nat) (a : ArrayD) 
     readJson d lg pk (fuel + 1) ty params (some (.arr es)) = .error .desc :=
   readJson_dict_pairs_rejected d lg pk fuel ty params a hd es
 
+/-! ## umbrella -/
+
+/-- **alt_equiv**: `AltForm d ty j j'` is the inductive closure of the documented rewrites (numbers as decimal strings, enums as
+objects / unions as type strings, member order of union objects, Maybe with or without `"ok"`, `{"ok":false}` ≡ `{}`) under
+reflexivity, symmetry, transitivity and every JSON context (typedef wrappers, array elements, struct members, union and Maybe
+values). Related trees are read identically — same value or same error — for every schema, fuel and nat arguments. -/
+theorem alt_equiv {ty : Nat} {j j' : Json} (h : AltForm d ty j j') :
+    ∀ fuel params, readJson d lg pk fuel ty params (some j) = readJson d lg pk fuel ty params (some j') :=
+  Codec.alt_equiv d lg pk h
+
+/-- replacing one member's value by a value its field reader cannot tell apart does not change what the struct reader returns -/
+theorem struct_member_congruence (fuel : Nat) (rj : Rj) (s : StructD) (params : List Nat)
+    (a b : List (Bytes × Json)) (k : Bytes) (v v' : Json)
+    (H : ∀ f ∈ s.fields, strBytes f.name = k → f.isBit = false ∧ ∀ na, rj f.ty na (some v) = rj f.ty na (some v')) :
+    readStructJ d fuel rj s params (a ++ (k, v) :: b) = readStructJ d fuel rj s params (a ++ (k, v') :: b) :=
+  readStructJ_member_congr d fuel rj s params a b k v v' H
+
 /-- the hypotheses above are satisfiable by a non-trivial instance: a struct `x:float y:# = T` read from `{"y":"5","z":1}` is
 rejected because of the unknown key, and `{"y":"5"}` is accepted with `y = 5` given as a string. -/
 def dEx : Desc :=
@@ -174,6 +191,17 @@ def dEx : Desc :=
       .struct { tag := 1, nparams := 0, fields := [{ name := "x", ty := 0, bare := true, mask := none, tl2bit := none, isBit := false, natArgs := [] },
                                                    { name := "y", ty := 1, bare := true, mask := none, tl2bit := none, isBit := false, natArgs := [] }] }],
     names := #["float", "nat", "t"] }
+
+/-- `AltForm` is inhabited non-trivially: inside the struct, member `y` given as the string "5" instead of the number 5 -/
+example : AltForm dEx 2 (.obj [(strBytes "y", .num ['5'])]) (.obj [(strBytes "y", .str (asciiBytes ['5']))]) :=
+  .member 2 _ [] [] (strBytes "y") _ _ rfl rfl
+    (by intro f hf hk; simp at hf; rcases hf with rfl | rfl <;> first | rfl | (exact absurd hk (by decide)))
+    (by
+      intro f hf hk
+      simp at hf
+      rcases hf with rfl | rfl
+      · exact absurd hk (by decide)
+      · exact .numberAsString 1 .u32 ['5'] rfl rfl (by decide))
 
 example : readJson dEx false parseJson 4 2 [] (some (.obj [(strBytes "y", .str (strBytes "5")), (strBytes "z", .num ['1'])])) = .error .rej := by rfl
 example : readJson dEx false parseJson 4 2 [] (some (.obj [(strBytes "y", .str (strBytes "5"))])) = .ok (.struct [some (.nat 0), some (.nat 5)]) := by rfl
